@@ -15,7 +15,7 @@ CFG = dict(
         "build_covers", "octree_queries_eq_scan_of_input",
         # BVH
         "bvh_hit_eq_list", "bvh_hit_eq_list_aabb", "hitlist_nearest", "bvh_hit_eq_hitlist_any_order",
-        "bvh_build_covers", "bvh_built_hit_eq_hitlist",
+        "bvh_build_covers", "bvh_built_hit_eq_hitlist", "octree_hit_eq_hitlist",
     ],
     streams=[dict(name="c16", n=dict(quick=150, thorough=6000))],
     trusted=T_COMMON + [
